@@ -114,6 +114,7 @@ SENSITIVITY = {
     "r21b": ("seeded/r21b/patch.diff", "C17", ["result-mismatch", "data-race"], "C / B: slope row behind a 'biased lock' (UnsafeCell + unsafe impl Sync); the owner's load-then-store fast path races a take-over CAS"),
     "r21c": ("seeded/r21c/patch.diff", "C18", ["error-changed", "callback-invariant"], "A: batch loops append the query index to errors whose text ends in 'is not in range' - also a user strategy's"),
     "r21d": ("seeded/r21d/patch.diff", "C18", ["callback-invariant"], "A: degenerate-stride table - index_point via precomputed row offsets whose bounds check is index*|stride| < len*|stride| (stride 0)"),
+    "M17": ("mutants/M17.diff", "C17", ["result-mismatch"], "A: degenerate-stride histories - Linear packs the rows on first use, taking stride[0] elements per row (0 for a broadcast row); later calls read the packed copy"),
     "M16": ("mutants/M16.diff", "C17", ["answers-differ-between-processes", "process-history-dependence"], "A: evaluation order picked once per process from the hasher's random seed"),
 }
 # seeded/r7d is kept but not listed: its author reads C18 as forbidding one-point axes for strategies
